@@ -76,6 +76,10 @@ pub enum UriError {
     /// The URI is missing a scheme.
     #[error("missing scheme in uri: {0}")]
     MissingScheme(http::Uri),
+
+    /// The URI is missing an authority.
+    #[error("missing authority in uri: {0}")]
+    MissingAuthority(http::Uri),
 }
 
 /// A pool of connections to remote hosts.
